@@ -72,6 +72,21 @@ def check_transpose(ctx, x, perm, tag):
         return
     if labels_of(o.value) != labels_of(x) or o.value.charge != x.charge:
         ctx.violation("transpose-labels", f"labels/charge changed: {labels_of(o.value)} {o.value.charge!r}", wit)
+    # the documented option phase=False: the same axes permutation WITHOUT the sign (a plain
+    # relabelling of the stored data, pending signs carried along)
+    if perm is not None and hash((tag, p_eff, "np")) % 5 == 0:
+        from symv.audit import audit
+
+        o2 = ctx.call(lambda: x.transpose(perm, phase=False))
+        ctx.evaluated()
+        ctx.count("op", "transpose-phase=False")
+        if not o2.ok:
+            ctx.violation(f"transpose-raises-{o2.excname}", f"phase=False: {o2.exc!r}", wit)
+        else:
+            m2 = cmp.compare_array(o2.value, ref, embed(x).transpose(p_eff), True)
+            e2 = audit(o2.value)
+            if m2 or e2:
+                ctx.violation("transpose-nophase", f"transpose({perm}, phase=False) is not the plain permutation of the data: {m2 or e2[:2]}", wit)
     moved = [i for i in range(x.ndim) if p_eff[i] != i]
     if odd_on(sym, x, moved) and np.any(exp != 0):
         ctx.nontrivial(("T", struct_sig(x), p_eff))
